@@ -153,12 +153,68 @@ func h_c04_commit(ntx, maxin, maxout int, heights []uint32) {
 			return
 		}
 	}
-	_, _, e := ch.ProcessBlockTransactions(bl, height, height)
+	changes, _, e := ch.ProcessBlockTransactions(bl, height, height)
 	if e != nil {
 		zzverif.Reach("refused")
 		return
 	}
 	zzverif.Reach("connected")
+
+	// ---- the change set handed to the UTXO database is exactly what the block spends and creates
+	for _, pe := range pre {
+		var mask [2]bool
+		any := false
+		for _, s := range spends {
+			if s.id == pe.id && s.vout < 2 {
+				mask[s.vout], any = true, true
+			}
+		}
+		dm, has := changes.DeledTxs[pe.id]
+		zzverif.Assert("C04.changes.deleted-keys", has == any)
+		ur := changes.UndoData[pe.id]
+		zzverif.Assert("C04.changes.undo-keys", (ur != nil) == any)
+		if any && has && ur != nil {
+			zzverif.Assert("C04.changes.deleted-mask", len(dm) == 2 && dm[0] == mask[0] && dm[1] == mask[1])
+			zzverif.Assert("C04.changes.undo-meta", ur.TxID == pe.id && ur.Coinbase == pe.coinbase && ur.InBlock == pe.height && len(ur.Outs) == 2)
+			for v := 0; v < 2; v++ {
+				if mask[v] {
+					zzverif.Assert("C04.changes.undo-output", ur.Outs[v] != nil && ur.Outs[v].Value == pe.value[v])
+				} else {
+					zzverif.Assert("C04.changes.undo-untouched", ur.Outs[v] == nil)
+				}
+			}
+		}
+	}
+	zzverif.Assert("C04.changes.no-other-deletions", len(changes.DeledTxs) <= len(pre) && len(changes.UndoData) <= len(pre))
+	for ti, tx := range bl.Txs {
+		var rec *utxo.UtxoRec
+		for _, r := range changes.AddList {
+			if r.TxID == tx.Hash.Hash {
+				zzverif.Assert("C04.changes.added-once", rec == nil)
+				rec = r
+			}
+		}
+		unspent := 0
+		for vo := range tx.TxOut {
+			spentInBlock := false
+			for _, s := range spends {
+				if s.id == tx.Hash.Hash && int(s.vout) == vo {
+					spentInBlock = true
+				}
+			}
+			if !spentInBlock {
+				unspent++
+				zzverif.Assert("C04.changes.added-output", rec != nil && len(rec.Outs) == len(tx.TxOut) && rec.Outs[vo] != nil && rec.Outs[vo].Value == tx.TxOut[vo].Value)
+			} else {
+				zzverif.Assert("C04.changes.spent-in-block-not-added", rec == nil || rec.Outs[vo] == nil)
+			}
+		}
+		zzverif.Assert("C04.changes.added-record", (rec != nil) == (unspent > 0))
+		if rec != nil {
+			zzverif.Assert("C04.changes.added-meta", rec.Coinbase == (ti == 0) && rec.InBlock == height)
+		}
+	}
+	zzverif.Assert("C04.changes.no-other-additions", len(changes.AddList) <= len(bl.Txs))
 
 	// ---- what must hold for a connected block
 	for _, v := range verdicts {
